@@ -350,7 +350,7 @@ func (e *SpecEnv) tr(x *Expr) SV {
 		case *types.Slice:
 			sh := e.shadow()
 			sz := e.g.P.sizeof(u.Elem())
-			a := fmt.Sprintf("(+ %s %s)", b.V.Fs[0].T, mulC(i.V.T, sz))
+			a := e.g.elemAddr(b.V.Fs[0].T, i.V.T, sz)
 			p := sh.ptrTo(u.Elem(), a)
 			return SV{V: sh.derefLoad(p, u.Elem()), T: u.Elem()}
 		case *types.Array:
@@ -677,7 +677,7 @@ func (e *SpecEnv) loc(x *Expr) *Loc {
 		}
 		b := e.tr(x.Args[0])
 		if sl, ok := b.T.Underlying().(*types.Slice); ok {
-			a := fmt.Sprintf("(+ %s %s)", b.V.Fs[0].T, mulC(i.V.T, e.g.P.sizeof(sl.Elem())))
+			a := e.g.elemAddr(b.V.Fs[0].T, i.V.T, e.g.P.sizeof(sl.Elem()))
 			p := sh.ptrTo(sl.Elem(), a)
 			if p.K == KLoc {
 				return p.Loc
